@@ -30,6 +30,7 @@ func optionConfigs() []gen.Config {
 
 // C01 — every emitted file is valid, self-contained Go that compiles.
 func C01(c *core.Ctx) {
+	c.NoDefaultModeTwin = true // the option sets of this driver include the run without --extra-imports
 	c.Explanation = engineAText +
 		"C01: over the broad union of families × option sets {default, no --extra-imports, --only-models, --min-sized-ints, --tags json, only-models without extra imports} every emitted file skeleton must " +
 		"(A-SYN) parse; (A-TYP) type-check with go/types against exactly the imports the generator registered for that run, using the real export data of encoding/json, fmt, errors, reflect, regexp, math, " +
